@@ -450,7 +450,7 @@ def r5(ctx, fs):
                     t = canon(node, env, subst=False)
                     if isinstance(t, tuple) and t[0] == 'mcall' and t[1] == 'ratio::field::is_synthetic':
                         syn = pol
-                        filt = ('!', t)
+                        filt = ('!', t[:2] + ('$field',) + t[3:])       # whatever the loop calls the visited field
                     else:
                         before.append(t)
                 if not reached:
